@@ -25,8 +25,9 @@
     (keys <function>:reuse); the law checker and the model judge the LATER calls against private copies of the
     data; R, J, x rotate through contiguous / transposed / strided-slice-of-a-larger-base / expand()ed stride-0 /
     empty layouts and the calls through keyword, positional, .forward and torch.no_grad() forms.
-The witnesses of the three defects repaired in /repo (e6f8307 Scale accepted negative input, 298dcfc
-Triggs dropped R on masked blocks, af4d69c Triggs raised for constant-slope kernels) are directed
+The witnesses of the defects repaired in /repo (e6f8307 Scale accepted negative input, 298dcfc
+Triggs dropped R on masked blocks, af4d69c Triggs raised for constant-slope kernels, 3a06748 Triggs raised for a
+column-major J with R of shape (2, 2, 1)) are directed
 regression cases of every run.
 """
 import math
@@ -731,7 +732,13 @@ def corrector_history(pp, torch, spec, Rb, Jb, batch, layR='contig', layJ='conti
         if f[0] not in seen:
             seen.add(f[0])
             uniq.append(f)
-    return dict(grads=grads, first=rounds[0], outs=rounds[1], third=third, Rb3=Rb3, Jb3=Jb3, findings=uniq, shapeR=tuple(Rt.shape), contigR=Rt.is_contiguous())
+    return dict(grads=grads, first=rounds[0], outs=rounds[1], third=third, Rb3=Rb3, Jb3=Jb3, findings=uniq, shapeR=tuple(Rt.shape), contigR=Rt.is_contiguous(),
+                layout_class=':non-contiguous-J' if not Jt.is_contiguous() else ':non-contiguous-R' if not Rt.is_contiguous() else '')
+
+
+def raise_key(cname, h):
+    """a raise on a non-contiguous argument is its own class of failure (3a06748: Triggs' view of a column-major J)"""
+    return '%s.forward:raises%s' % (cname, h['layout_class'])
 
 
 def judge_history(pp, torch, spec, Rb, Jb, batch, layR='contig', layJ='contig', form='kw'):
@@ -745,7 +752,7 @@ def judge_history(pp, torch, spec, Rb, Jb, batch, layR='contig', layJ='contig', 
             out = outs[cname]
             if out[0] == 'raises':
                 if rnd == 2 or h['outs'][cname][0] != 'raises':
-                    finds.append(('%s.forward:raises' % cname, "%s(%s) raised / returned no (R', J') on call %d on the same tensors (R %s, J %s, form %s): %s"
+                    finds.append((raise_key(cname, h), "%s(%s) raised / returned no (R', J') on call %d on the same tensors (R %s, J %s, form %s): %s"
                                   % (cname, spec[0], 2 * rnd - (cname == 'FastTriggs'), layR, layJ, form, out[1][:120]), cname))
                 continue
             if rnd == 1 and repr(out) == repr(h['outs'][cname]):
@@ -761,7 +768,7 @@ def judge_history(pp, torch, spec, Rb, Jb, batch, layR='contig', layJ='contig', 
         if h['outs'][cname][0] == 'raises' or not intact:  # (arguments changed by a call: reported above, the data are no longer the caller's)
             continue
         if out[0] == 'raises':
-            finds.append(('%s.forward:raises' % cname, "%s(%s) raised / returned no (R', J') when called again after the caller's in-place update R *= 0.5, J *= -2 (R %s, J %s, form %s): %s"
+            finds.append((raise_key(cname, h), "%s(%s) raised / returned no (R', J') when called again after the caller's in-place update R *= 0.5, J *= -2 (R %s, J %s, form %s): %s"
                           % (cname, spec[0], layR, layJ, form, out[1][:120]), cname))
             continue
         for key, text in law_check(spec, cname, h['Rb3'], h['Jb3'], out, h['third']['FastTriggs'], None):
@@ -861,7 +868,7 @@ def corrector_tensor(ctx, pp, torch, spec, Rb, Jb, batch, cases, meta, layR='con
         ctx.traces += 2
         if out[0] == 'raises':
             ctx.case(('corr', cname, label, repr(Rb)), nontrivial=True, branch='%s:%s:raises' % (cname, label))
-            m = dict(base, corrector=cname, error=out[1], key='%s.forward:raises' % cname)
+            m = dict(base, corrector=cname, error=out[1], key=raise_key(cname, h))
             ctx.mismatch('corrector-raises', m)                     # the model returns for every kernel
             continue
         Rp, Jp = out
@@ -959,6 +966,10 @@ def run_correctors(ctx, pp, torch):
     # the built-in Tolerant kernel) and af4d69c (constant slope)
     for spec, Rw, Jw in WITNESSES:
         corrector_tensor(ctx, pp, torch, spec, Rw, Jw, (1,), cases, meta)
+    # 3a06748: Triggs raised (view of a tensor with permuted strides) for a column-major J with R of shape (2, 2, 1)
+    for form in ('kw', 'pos-nograd'):
+        corrector_tensor(ctx, pp, torch, ('Cauchy', 2, 1.0, 0.0, True), [[1.0], [2.0], [0.5], [-1.0]],
+                         [[[1.0, 2.0]], [[3.0, 4.0]], [[5.0, 6.0]], [[7.0, 8.0]]], (2, 2), cases, meta, 'contig', 'transposed', form)
 
     def coq():
         return run_enclosure_shared('C09', 'Model.Kernel', cases, prec=200, per_file=min(30, max(4, -(-len(cases) // NFILES))), timeout_goal=60)
